@@ -280,10 +280,14 @@ impl<A: Codec> Seq<A> {
     pub fn from_raw(len: usize, bits: &[usize]) -> Option<Self> {
         let mut bv: Bv = Bv::from_slice(bits);
         //debug_assert!(len <= bv.len(), "desired length is greater than provided bits string");
-        if len * A::BITS as usize > bv.len() {
+        // a symbol count whose bit count does not even fit a `usize` is more than any image holds
+        let Some(n_bits) = len.checked_mul(A::BITS as usize) else {
+            return None;
+        };
+        if n_bits > bv.len() {
             None
         } else {
-            bv.truncate(len * A::BITS as usize);
+            bv.truncate(n_bits);
             Some(Seq {
                 _p: PhantomData,
                 bv,
